@@ -72,7 +72,12 @@ def private_tmp():
         tempfile.tempdir = saved_tmp
         for k, v in saved_cfg.items():
             setattr(cfg, k, v)
-        gc.collect()
+        try:
+            left = bool(os.listdir(d))
+        except OSError:
+            left = False
+        if left:
+            gc.collect()          # objects that own temp files but are only reachable through cycles (costly on a large heap)
         shutil.rmtree(d, ignore_errors=True)
 
 
@@ -99,3 +104,26 @@ def cell_values():
         st.sampled_from([dt.time(0, 0), dt.time(12, 30)]),
         st.sampled_from([(1, None), (1, u'a'), (2,), ()]),
     )
+
+
+def pmap(func, items, procs=None, chunksize=4, min_items=64):
+    """Order-preserving parallel map over forked worker processes (the replay of TLC-generated cases on petl is
+    CPU-bound, single-threaded Python).  `func` must be a module-level function; it runs in a child that inherited
+    sys.path (VERIF_REPO) and the imported modules.  Falls back to a plain loop for short lists, with
+    VERIF_PROCS=1, or when no pool can be created."""
+    items = list(items)
+    if procs is None:
+        procs = int(os.environ.get('VERIF_PROCS', '0')) or max(1, min(14, (os.cpu_count() or 2) - 2))
+    if procs <= 1 or len(items) < min_items:
+        return [func(x) for x in items]
+    try:
+        import multiprocessing as mp
+        ctx = mp.get_context('fork')
+        pool = ctx.Pool(procs)
+    except Exception:
+        return [func(x) for x in items]
+    try:
+        return pool.map(func, items, chunksize)
+    finally:
+        pool.close()
+        pool.join()
